@@ -80,18 +80,49 @@ fn run_script(s: &Script) -> Vec<Ev> {
 		}
 	};
 	let mut notes: Vec<(i64, Ev)> = vec![(0, Ev::new("cli_start"))];
-	for (k, at) in s.changes.iter().enumerate() {
-		let target = Duration::from_millis(*at);
-		if started.elapsed() < target {
-			std::thread::sleep(target - started.elapsed());
+	// the scripted moments are relative to the first `start` line of the command (with --postpone: the
+	// first change comes first, the rest are relative to the run it starts), so that a slow machine shifts
+	// everything together
+	let wait_first_start = |log: &std::path::Path| {
+		let limit = Instant::now() + Duration::from_secs(15);
+		while Instant::now() < limit {
+			if std::fs::read_to_string(log).map_or(false, |t| t.lines().any(|l| l.starts_with("start "))) {
+				return;
+			}
+			std::thread::sleep(Duration::from_millis(5));
+		}
+	};
+	let mut base = started;
+	let mut k0 = 0;
+	if s.postpone {
+		if let Some(at) = s.changes.first() {
+			let target = Duration::from_millis(*at);
+			if started.elapsed() < target {
+				std::thread::sleep(target - started.elapsed());
+			}
+			let t = now_ms() - t0;
+			std::fs::write(w.join("f"), "0").unwrap();
+			notes.push((t, Ev::new("change").n(1)));
+			k0 = 1;
+		}
+	}
+	if !s.postpone || k0 == 1 {
+		wait_first_start(&log);
+		base = Instant::now();
+	}
+	let first_at = if k0 == 1 { s.changes[0] } else { 0 };
+	for (k, at) in s.changes.iter().enumerate().skip(k0) {
+		let target = Duration::from_millis(*at - first_at);
+		if base.elapsed() < target {
+			std::thread::sleep(target - base.elapsed());
 		}
 		let t = now_ms() - t0;
 		std::fs::write(w.join("f"), format!("{k}")).unwrap();
 		notes.push((t, Ev::new("change").n(k as i64 + 1)));
 	}
-	let target = Duration::from_millis(s.until);
-	if started.elapsed() < target {
-		std::thread::sleep(target - started.elapsed());
+	let target = Duration::from_millis(s.until - first_at);
+	if base.elapsed() < target {
+		std::thread::sleep(target - base.elapsed());
 	}
 	let tq = now_ms() - t0;
 	notes.push((tq, Ev::new("stop")));
